@@ -50,7 +50,7 @@ meta={"seed":id,"property":id.split('-')[0],"builds":build=="","repo_tests":test
 p='/verif/seeded/%s/meta.json'%id
 try:
     old=json.load(open(p))
-    for k in ("needs","notes","change","detected_by","final_verification","verify_with","round"):
+    for k in ("needs","notes","change","detected_by","final_verification","verify_with","round","held_out"):
         if k in old: meta[k]=old[k]
     if old.get("checks_run"):
         seen={c["check"] for c in meta["checks_run"]}
